@@ -33,6 +33,8 @@ def gen_ops(ctx):
                 for op in SCALAR_OPS:
                     lines.append("%s %d %d %d" % (op, a, b, e))
             lines.append("size %d %d" % (a, b))
+            for op in ("addSelf", "subSelf", "mulSelf", "andSelf", "orSelf"):
+                lines.append("%s %d %d" % (op, a, b))
             lines.append("empty %d %d" % (a, b))
     w2 = 4 if not ctx.thorough else 6
     for a in range(-w2, w2 + 1):
